@@ -17,7 +17,10 @@ use lumina_node::node::{HeaderExError, P2pError};
 use lumina_node::verif::p2p::header_ex::client::{Answer, ClientRig};
 use verif_harness::*;
 
+/// the ORIGINAL random sequences keep below this many requests
 const CHAIN: u64 = 48;
+/// length of the generated chain = largest number of requests in one sequence (S10: 1025 requests + a second wave of 512 + 1)
+const CHAIN_GEN: u64 = 1600;
 
 struct Seq {
     rig: ClientRig,
@@ -53,7 +56,7 @@ fn err_kind(e: &P2pError) -> &'static str {
 impl C32 {
     fn new() -> Self {
         let rt = tokio::runtime::Builder::new_current_thread().enable_time().build().unwrap();
-        let chain = ExtendedHeaderGenerator::new().next_many(CHAIN);
+        let chain = ExtendedHeaderGenerator::new().next_many(CHAIN_GEN);
         C32 { rt, chain, seq: None }
     }
 
@@ -127,6 +130,82 @@ impl C32 {
     }
 }
 
+/// S10: `n` peers (style 0: all connected, trusted, archival; 1: no archival peer at all, so third tries wait;
+/// 2: mixed), `k` requests issued at once and driven through their tries together; callers going away in bulk,
+/// the population shrinking to 9..11 connected peers, and finally `stop` with many requests pending / in flight.
+fn big_sequence(rng: &mut Rng, out: &mut Emitter, n: usize, k: usize, style: usize) {
+    out.op("reset", &format!("big/seq-peers={n}-reqs={k}"), false);
+    let peers: Vec<String> = (0..n)
+        .map(|_| match style {
+            0 => "cta".to_string(),
+            1 => format!("c{}n", if rng.bool() { 't' } else { 'u' }),
+            _ => format!(
+                "{}{}{}",
+                if rng.chance(4, 5) { 'c' } else { 'd' },
+                if rng.bool() { 't' } else { 'u' },
+                if rng.chance(1, 3) { 'a' } else { 'n' }
+            ),
+        })
+        .collect();
+    out.op(format!("peers p={}", peers.join(",")), "big/peers", false);
+    let t = "big/req";
+    for _ in 0..k {
+        let v = if rng.chance(1, 16) { 0 } else { 1 };
+        out.op(format!("req v={v}"), t, true);
+    }
+    // a tenth of the callers go away before the first scheduling round
+    for _ in 0..k / 10 {
+        out.op(format!("close r={}", rng.usize(0, k - 1)), "big/close", true);
+    }
+    out.op("sched", "big/sched", true);
+    let mut order: Vec<usize> = (0..k).collect();
+    // three tries: a third of the requests succeed in each, the rest keep failing
+    for attempt in 0..3 {
+        rng.shuffle(&mut order);
+        for (j, &r) in order.iter().enumerate() {
+            let res = if j % 3 == 0 { "ok" } else { *rng.pick(&["nf", "ir", "of"]) };
+            out.op(format!("out r={r} att=cur res={res}"), &format!("big/out-{res}"), true);
+            if rng.chance(1, 20) {
+                out.op(format!("out r={r} att=cur res={res}"), "big/out-duplicate", true);
+            }
+            if rng.chance(1, 20) {
+                out.op(format!("out r={r} att=old res=of"), "big/out-stale", true);
+            }
+            // scheduling rounds in the middle of the outcomes: batches of retried requests of every size
+            if rng.chance(1, 12) {
+                out.op("sched", "big/sched", true);
+            }
+        }
+        out.op("sched", "big/sched", true);
+        if attempt == 0 && n > 11 {
+            // the population shrinks to 11, 10, 9 connected peers
+            for i in 11..n {
+                out.op(format!("disc i={i}"), "big/disc", false);
+            }
+            out.op("sched", "big/sched", true);
+            out.op("disc i=10", "big/disc", false);
+            out.op("sched", "big/sched", true);
+            out.op("disc i=9", "big/disc", false);
+            out.op("sched", "big/sched", true);
+        }
+        if attempt == 1 && n > 11 {
+            for i in (9..n).step_by(2) {
+                out.op(format!("conn i={i}"), "big/conn", false);
+            }
+        }
+    }
+    // a second wave that is stopped while pending / in flight
+    for _ in 0..(k / 2).max(1) {
+        out.op("req v=1", t, true);
+    }
+    if rng.bool() {
+        out.op("sched", "big/sched", true);
+    }
+    out.op("stop", "big/stop", true);
+    out.op("req v=1", t, true);
+    out.op("sched", "big/sched", true);
+}
+
 fn gen_peers(rng: &mut Rng) -> Vec<String> {
     let n = match rng.below(6) {
         0 => 0,
@@ -160,7 +239,12 @@ impl Prop for C32 {
          every connected/trusted/archival combination incl. populations without any archival peer; requests (valid and \
          invalid); scheduling rounds; per-attempt outcomes ok / not-found / invalid-response / outbound-failure for the \
          outstanding attempt, for a stale attempt and duplicated; callers dropping their receiver at any point; peers \
-         connecting/disconnecting between rounds; stop, and requests after stop. Non-trivial = ops that send, answer or \
+         connecting/disconnecting between rounds; stop, and requests after stop. \
+         Size-threshold sequences (S10, tags big/..): populations of 8..12, 16, 17, 32, 33, 64, 65, 128, 129, 513, 1025 peers (all \
+         eligible / none archival / mixed) shrinking to 11, 10, 9 connected peers and growing again; 9, 10, 11, 17, 33, 65, 129, 513 \
+         (thorough also 8, 12, 16, 32, 64, 128, 257, 1025) requests issued at once and driven through all three tries together \
+         with scheduling rounds in between (batches of every size), duplicated and stale outcomes, a tenth of the callers gone \
+         before the first round, and a second wave of k/2 requests stopped while pending or in flight. Non-trivial = ops that send, answer or \
          deliver an outcome; distinct = distinct (op, result)."
     }
     fn gen_ops(&mut self, rng: &mut Rng, tier: Tier, out: &mut Emitter) {
@@ -221,6 +305,26 @@ impl Prop for C32 {
             }
             if rng.bool() {
                 out.op("stop", "stop", true);
+            }
+        }
+        // ---- S10 size-threshold stress: appended sequences (each starts with its own `reset`) ----
+        // peers: MAX_PEERS = 10 +-1/+-2 and larger populations; requests: many concurrent requests per sequence
+        let ns: &[usize] = &[9, 10, 11, 12, 17, 33, 65, 129, 513, 8, 16, 32, 64, 128, 1025];
+        let ks: &[usize] = if tier == Tier::Thorough {
+            &[8, 9, 10, 11, 12, 16, 17, 32, 33, 64, 65, 128, 129, 257, 513, 1025]
+        } else {
+            &[9, 10, 11, 17, 33, 65, 129, 513]
+        };
+        let reps = if tier == Tier::Thorough { 4 } else { 1 };
+        for rep in 0..reps {
+            for (i, &k) in ks.iter().enumerate() {
+                let n = if tier == Tier::Thorough { ns[(i + 3 * rep) % ns.len()] } else { ns[(i + 1) % 9] };
+                big_sequence(rng, out, n, k, (i + rep) % 3);
+            }
+            // peer-count thresholds with few requests
+            for &n in &[9usize, 10, 11, 12, 33, 129] {
+                let (k, style) = (rng.usize(1, 4), rng.usize(0, 2));
+                big_sequence(rng, out, n, k, style);
             }
         }
     }
